@@ -346,6 +346,21 @@ impl<'env, 'source> Template<'env, 'source> {
         )
     }
 
+    /// Addresses of the compiled instruction streams of this template (main
+    /// stream and every block), for the verification probes.
+    #[cfg(all(feature = "verif_hooks", feature = "multi_template"))]
+    pub fn verif_stream_addresses(&self) -> (usize, Vec<(String, usize)>) {
+        let compiled: &CompiledTemplate<'_> = &self.compiled;
+        (
+            &compiled.instructions as *const _ as usize,
+            compiled
+                .blocks
+                .iter()
+                .map(|(name, instr)| (name.to_string(), instr as *const _ as usize))
+                .collect(),
+        )
+    }
+
     /// Returns the instructions and blocks if the template is loaded from the
     /// environment.
     ///
